@@ -83,7 +83,7 @@ class StoreWorld:
         tok = self.token()
         # now and then a large member whose only changing bytes are at its end
         big = self.rng.choice([70000, 140000, 200000]) if self.rng.random() < 0.08 else 0
-        if name in self.model and getattr(self.model[name], "bigbody", None) and self.rng.random() < 0.8:
+        if name in self.model and getattr(self.model[name], "bigbody", None) and self.model[name].uid == uid and self.rng.random() < 0.8:
             # tail-only change of the previous large body
             prev, ptok = self.model[name].bigbody
             self._lastbig = (prev.replace(ptok.encode(), tok.encode()), tok)
